@@ -31,6 +31,8 @@ def run(tier, seed, t0):
     na = T(tier, 500, 50000)
     R.run_inv(Inv("grid", n, "plain", timeout=T(tier, 900, 5400)), seed, wd, m)
     R.run_inv(Inv("grid", na, "asanassert", timeout=T(tier, 900, 5400), first=n), seed, wd, m)
+    # the same with 8 threads: the neighbourhood queries are repeated concurrently and compared with the answers given alone
+    R.run_inv(Inv("grid", T(tier, 200, 20000), "plain", threads=8, shards=2, first=6000000, timeout=T(tier, 900, 5400), tag="grid/plain/t8"), seed, wd, m)
     # grids of more than a million voxels, with 1 and with 7 threads (7 divides few voxel counts)
     nh = T(tier, 16, 400)
     R.run_inv(Inv("grid", nh, "plain", args=["--huge=1"], threads=7, shards=2, first=4000000, timeout=T(tier, 900, 5400), tag="grid/plain/huge/t7"), seed, wd, m)
@@ -40,6 +42,7 @@ def run(tier, seed, t0):
     floors = {
         "grids_beyond_a_million_voxels": (m.bins.get("grids_beyond_a_million_voxels", 0), 1.4 * nh),
         "grids": (m.evaluations, 0.99 * (n + na)),
+        "neighbourhood_queries_asked_concurrently": (m.bins.get("concurrent_queries", 0), 20000),
         "grids_storing_the_extreme_values_of_the_object_type": (m.bins.get("grids_storing_the_extreme_values_of_the_object_type", 0), 0.25 * (n + na)),
         "max_corner_points": (b("corner:max"), 0.7 * ev),
         "min_corner_points": (b("corner:min"), 0.7 * ev),
